@@ -38,10 +38,10 @@ type c14Case struct {
 	// GUI sends with a clock. The engine may use it or not; whatever it does,
 	// every clause about the deadline holds (and cases are only compared with
 	// cases reporting the same value).
-	MovesToGo int `json:"movestogo,omitempty"`
-	NumFmt     int    `json:"num_fmt,omitempty"`  // 0 plain, 1 zero padded, 2 explicit plus sign: all decimal
-	OmitOpp    bool   `json:"omit_opp,omitempty"` // the go line carries only the mover's own clock fields
-	RunPolls   int    `json:"run_polls,omitempty"`
+	MovesToGo int  `json:"movestogo,omitempty"`
+	NumFmt    int  `json:"num_fmt,omitempty"`  // 0 plain, 1 zero padded, 2 explicit plus sign: all decimal
+	OmitOpp   bool `json:"omit_opp,omitempty"` // the go line carries only the mover's own clock fields
+	RunPolls  int  `json:"run_polls,omitempty"`
 	// Lag: the GUI has not yet read this many answers (to isready lines sent
 	// just before) when it writes the go, and goes on not reading for LagUS of
 	// simulated time; Debug: `debug on` was sent before the go.
